@@ -30,6 +30,17 @@ type outLine struct {
 	Levels []int           `json:"levels"`
 	Panic  string          `json:"panic"`
 	Out    string          `json:"out,omitempty"`
+	// binary_log build only
+	Heads   []prog.Head  `json:"heads,omitempty"`   // RFC 8949 heads found by the independent scanner
+	Item    *prog.Item   `json:"item,omitempty"`    // the event decoded by the independent generic decoder
+	ItemErr string       `json:"itemerr,omitempty"`
+	Rest    int          `json:"rest"`              // bytes left after the first item
+	Dec     string       `json:"dec,omitempty"`     // what the bundled decoder makes of it (base64)
+	DecErr  string       `json:"decerr,omitempty"`
+	DecPan  string       `json:"decpanic,omitempty"`
+	DTok    []string     `json:"dtokens,omitempty"` // lexer on the decoded JSON
+	DKeys   []prog.KeyAt `json:"dkeys,omitempty"`
+	DRaw    *prog.Raw    `json:"draw,omitempty"`
 }
 
 func main() {
@@ -60,7 +71,30 @@ func main() {
 		res := prog.Run(&p)
 		ol := outLine{A: "Prog", ID: p.ID, Abs: p.Abs, NW: len(res.Writes), Hooks: res.Hooks, Levels: res.Levels, Panic: res.Panic,
 			Tokens: []string{}, Keys: []prog.KeyAt{}, CTok: []string{}, CKeys: []prog.KeyAt{}}
-		if len(res.Writes) > 0 {
+		if len(res.Writes) > 0 && binaryBuild {
+			out := res.Writes[0]
+			ol.Heads = prog.ScanHeads(out)
+			it, n, err := prog.DecodeItem(out, 0)
+			if err != nil {
+				ol.ItemErr = err.Error()
+			} else {
+				ol.Item, ol.Rest = it, len(out)-n
+			}
+			dec, derr, dpan := decodeMany(out)
+			ol.Dec, ol.DecErr, ol.DecPan = base64.StdEncoding.EncodeToString(dec), derr, dpan
+			raw := prog.RawChecks(dec)
+			ol.DRaw = &raw
+			lx := prog.LexJSON(bytes.TrimSuffix(dec, []byte("\n")))
+			cl := prog.Collapse(lx, p.Opaque)
+			ol.DTok, ol.DKeys = cl.Tokens, cl.Keys
+			ol.Tokens, ol.Keys = lx.Tokens, lx.Keys
+			if raw.EndsNL {
+				ol.DTok = append(append([]string{}, ol.DTok...), "NL")
+				ol.Tokens = append(append([]string{}, ol.Tokens...), "NL")
+			}
+			ol.Valid = json.Valid(bytes.TrimSuffix(dec, []byte("\n")))
+			ol.Out = base64.StdEncoding.EncodeToString(out)
+		} else if len(res.Writes) > 0 {
 			out := res.Writes[0]
 			ol.Raw = prog.RawChecks(out)
 			body := bytes.TrimSuffix(out, []byte("\n"))
